@@ -48,7 +48,7 @@ func init() {
 			"Redis delivery itself (PUBLISH -> subscriber) is replaced by an in-process RESP server",
 		},
 		Stages: []Stage{
-			{Name: "announce", Pkg: "./pkg/station/lib", Run: "^TestVerifC10(Announce|Lifetime)$", Drivers: []string{"lib"}, Exports: []string{"cdtls", "lib"},
+			{Name: "announce", Pkg: "./pkg/station/lib", Run: "^TestVerifC10(Announce|Lifetime|ShutdownBusy)$", Drivers: []string{"lib"}, Exports: []string{"cdtls", "lib"},
 				TimeoutQ: 10 * time.Minute, TimeoutT: 40 * time.Minute},
 			// own child process (the station's redis client is created once per process) and own network namespace (the
 			// real initRedisClient dials the fixed localhost:6379): nothing listens when the first announcement is due
@@ -553,6 +553,7 @@ func c10Post(rc *RunCtx) {
 	rc.Extra["detector_code"] = "extracted-from-repo"
 	rc.Extra["detector_shim"] = map[string]interface{}{"subscribed_channel": sh.Channel, "rustc": sh.Version, "build_s": sh.BuildS, "items": sh.Items, "sources_sha256": sh.Sources}
 	c10JudgeStage(rc, sh, "announce", true)
+	c10JudgeBusy(rc, sh)
 	if len(rc.Errors) == 0 && rc.Only == "" {
 		// the detector channel comes up only after the first announcement was due (own process: the client is a per-process Once)
 		c10JudgeStage(rc, sh, "redis-late", false)
@@ -1119,5 +1120,170 @@ func c10JudgeLife(rc *RunCtx, sh *c10Shim, distinct map[string]bool) {
 		if len(rc.Violations) == 0 {
 			rc.Errors = append(rc.Errors, "C10: the lifetime monitor never looked inside the critical window after a re-delivery (or never saw a served registration); it observed too little")
 		}
+	}
+}
+
+// ---- the shutdown Clear while ingest workers are busy -----------------------------------------------------
+
+// c10JudgeBusy replays, launch by launch, everything a station launch published (in the order the stand-in Redis
+// received it) into the detector's own code.  The launch ended with the shutdown sequence of cmd/application/main.go;
+// the next launch starts with an empty registry, so whatever the detector still diverts after the last message is a
+// diversion the restarted station knows nothing about.
+func c10JudgeBusy(rc *RunCtx, sh *c10Shim) {
+	fh, err := os.Open(filepath.Join(rc.Work, "announce.0.out", "c10_busy_records.jsonl"))
+	if err != nil {
+		rc.Errors = append(rc.Errors, fmt.Sprintf("C10: the busy-shutdown driver left no records (%v)", err))
+		return
+	}
+	defer fh.Close()
+	const probeBase = 1 << 30
+	type launch struct {
+		end  *c10Record
+		msgs []*c10Record
+	}
+	var launches []*launch
+	cur := &launch{}
+	var in bytes.Buffer
+	sc := bufio.NewScanner(fh)
+	sc.Buffer(make([]byte, 1<<20), 16<<20)
+	for sc.Scan() {
+		r := &c10Record{}
+		if err := json.Unmarshal(sc.Bytes(), r); err != nil {
+			rc.Errors = append(rc.Errors, fmt.Sprintf("C10: unreadable busy-shutdown record: %v", err))
+			return
+		}
+		switch r.T {
+		case "R":
+			in.WriteString("R\n")
+			cur = &launch{}
+		case "M":
+			in.WriteString(c10ShimLine(r))
+			in.WriteByte('\n')
+			cur.msgs = append(cur.msgs, r)
+		case "U":
+			rc.Violations = append(rc.Violations, Violation{Sig: "undecodable:launch-msg", Msg: "the published bytes are not a StationToDetector message", Stage: "announce", Mon: "busy-shutdown", Detail: r.witness(nil)})
+		case "E":
+			fmt.Fprintf(&in, "L\t%d\t-\t-\t0\t0\n", probeBase+r.ID)
+			cur.end = r
+			launches = append(launches, cur)
+		}
+	}
+	os.WriteFile(filepath.Join(rc.Work, "c10_busy_shim.in"), in.Bytes(), 0o644)
+	cmd := exec.Command(sh.Bin)
+	cmd.Stdin = &in
+	var stdout, stderr bytes.Buffer
+	cmd.Stdout, cmd.Stderr = &stdout, &stderr
+	if err := cmd.Run(); err != nil {
+		rc.Errors = append(rc.Errors, fmt.Sprintf("C10: the detector shim failed on the busy-shutdown records (infrastructure): %v\n%s", err, tail(stderr.String(), 1500)))
+		return
+	}
+	os.WriteFile(filepath.Join(rc.Work, "c10_busy_shim.out"), stdout.Bytes(), 0o644)
+	replies := map[int]map[string]string{}
+	for _, l := range strings.Split(stdout.String(), "\n") {
+		if l == "" {
+			continue
+		}
+		m := map[string]string{}
+		for _, kv := range strings.Split(l, "\t") {
+			if i := strings.IndexByte(kv, '='); i > 0 {
+				m[kv[:i]] = kv[i+1:]
+			}
+		}
+		if id, err := strconv.Atoi(m["id"]); err == nil {
+			replies[id] = m
+		}
+	}
+	opName := func(r *c10Record) string {
+		if r.Op == nil {
+			return "no-op-field"
+		}
+		if n, ok := map[int32]string{0: "Unknown", 1: "New", 2: "Update", 3: "Clear"}[*r.Op]; ok {
+			return n
+		}
+		return fmt.Sprintf("op%d", *r.Op)
+	}
+	judged, sampled := 0, 0
+	distinct := map[string]bool{}
+	for _, l := range launches {
+		pr := replies[probeBase+l.end.ID]
+		if pr == nil {
+			rc.Errors = append(rc.Errors, fmt.Sprintf("C10: the shim gave no reply for the end of launch %d", l.end.ID))
+			return
+		}
+		left, _ := strconv.Atoi(pr["len"])
+		// the order of what was published, and what the detector's map held after each message
+		var order, afterClear []string
+		var hist []interface{}
+		peak, lastClear := 0, -1
+		for i, m := range l.msgs {
+			rep := replies[m.ID]
+			if rep == nil {
+				rc.Errors = append(rc.Errors, fmt.Sprintf("C10: the shim gave no reply for message %d", m.ID))
+				return
+			}
+			rc.addCount("evaluations", 1)
+			rc.addCount("busy.messages_replayed", 1)
+			la, _ := strconv.Atoi(rep["len_after"])
+			if la > peak {
+				peak = la
+			}
+			order = append(order, opName(m))
+			if opName(m) == "Clear" {
+				lastClear = i
+			}
+			w := m.witness(nil)
+			delete(w, "case")
+			delete(w, "state")
+			w["detector_sessions_after"] = la
+			hist = append(hist, w)
+		}
+		for i := lastClear + 1; lastClear >= 0 && i < len(l.msgs); i++ {
+			afterClear = append(afterClear, opName(l.msgs[i]))
+		}
+		rc.addCount("busy.launches", 1)
+		if l.end.Stale {
+			rc.addCount("busy.launches_pipeline_returned_while_workers_were_scanning", 1)
+		}
+		if peak == 0 && left == 0 {
+			rc.addCount("busy.launches_detector_map_never_populated_undecidable", 1)
+			continue
+		}
+		rc.addCount("evaluations", 1)
+		judged++
+		distinct[fmt.Sprintf("launch/workers=%d/scanning-at-stop=%d/%s", l.end.Seq, l.end.Reg, l.end.Fam)] = true
+		detail := map[string]interface{}{"launch": l.end.Case, "observed": l.end.Ops, "published_in_order": strings.Join(order, " "),
+			"everything_published_in_this_launch": hist, "detector_sessions_after_the_last_message": left, "detector_reply": pr}
+		if left == 0 {
+			rc.addCount("busy.launches_detector_left_empty", 1)
+			if sampled < 2 && len(rc.Samples) < 14 {
+				sampled++
+				rc.Samples = append(rc.Samples, map[string]interface{}{"monitor": "busy-shutdown", "case": detail})
+			}
+			continue
+		}
+		why := "no-Clear-published"
+		switch {
+		case lastClear >= 0 && len(afterClear) > 0:
+			seen := map[string]bool{}
+			var kinds []string
+			for _, o := range afterClear {
+				if !seen[o] {
+					seen[o] = true
+					kinds = append(kinds, o)
+				}
+			}
+			sort.Strings(kinds)
+			why = strings.Join(kinds, "+") + "-published-after-the-Clear"
+		case lastClear >= 0:
+			why = "Clear-not-acted-on"
+		}
+		rc.Violations = append(rc.Violations, Violation{Sig: "launch-end:detector-still-diverts:" + why + ":" + l.end.Fam,
+			Msg: fmt.Sprintf("after everything the station launch published (shutdown: cancel, wait for HandleRegUpdates, Cleanup) the detector still diverts %d session(s) the next launch knows nothing about; published in this order: %s",
+				left, strings.Join(order, " ")),
+			Stage: "announce", Mon: "busy-shutdown", Detail: detail})
+	}
+	rc.addDistinct("nontrivial", int64(len(distinct)))
+	if judged == 0 && len(rc.Violations) == 0 && len(rc.Incon) == 0 {
+		rc.Errors = append(rc.Errors, "C10: no station launch with busy ingest workers at the stop request was replayed; the busy-shutdown scenario was not observed")
 	}
 }
